@@ -88,3 +88,18 @@ Theorem C19_no_operation_reads_the_logs : forall c s, Inv s ->
   (forall vs, length vs = length (cols s) -> ores (push c (clear_events s) vs) = ores (push c s vs)) /\
   (forall k h, key32 h -> ores (destroy c k (clear_events s) h) = ores (destroy c k s h)).
 Proof. intros c s HI. split; [intros; by apply push_ignores_logs|intros; by apply destroy_ignores_logs]. Qed.
+
+(** wrapping_version, operation by operation: create and create_within_capacity are literally the same
+    with the feature on or off; destroy (any key) is literally the same except where the checked
+    counters overflow, which is exactly where the feature is documented to differ. *)
+Theorem C19_wrapping_only_replaces_the_overflow_panic : forall c1 c2 k s h,
+  wrapping c1 = false -> same_but_wrapping c1 c2 -> Inv s -> key32 h ->
+  match destroy c1 k s h with
+  | Panic PArchOverflow _ | Panic PSlotOverflow _ => True
+  | r => destroy c2 k s h = r
+  end.
+Proof. exact wrapping_only_replaces_the_overflow_panic. Qed.
+
+Theorem C19_create_ignores_wrapping : forall c1 c2 s vs, same_but_wrapping c1 c2 -> Inv s -> length vs = length (cols s) ->
+  push c1 s vs = push c2 s vs /\ push_within c1 s vs = push_within c2 s vs.
+Proof. exact push_ignores_wrapping. Qed.
